@@ -7,8 +7,10 @@ LEVEL = 'bounded symbolic checking: every input / state inside the stated bounds
 NOTE = 'trusted: clang-14 front end as a stand-in for g++ (differences confined to UB), engine/ir2c.py (validated natively against the real build on every run), CBMC 6.11 and its SAT back end, the stubs/models listed in the evidence file'
 CLAIMED = {
  'C01': 'per layer class: the real from-buffer constructor and size/header_size/trailer_size/clone/destructor on every buffer of each length up to a calibrated per-class bound, inner layers as contract stubs; memory safety, termination, no leak, only malformed_packet escapes. Option containers are an append model; byte-walking parsers (options, DNS records, RadioTap fields) reach only short variable parts - see evidence bounds',
+ 'C02': 'per layer class (fixed-header classes and the option-free shape of TCP): the real parse of a symbolic buffer with a real RawPDU payload of 0..3 symbolic bytes, then the real serialize(): no exception, exactly size() bytes, payload bytes unmodified at offset header_size(), every write inside the output vector. Option containers, API-built packets and edit histories are outside',
+ 'C03': 'same units as C02: parse -> serialize -> parse: accepted again, every stored-field getter equal, next-protocol tags preserved in front of an unrecognised non-empty payload, payload equal (modulo Ethernet minimum-frame padding), second serialization byte-identical',
  'C05': 'checksum kernels (sum_range, do_checksum, IPv4 pseudo-header, crc32) against RFC 1071 / IEEE 802.3 references for every buffer of each length in the bound; the per-layer serializers that use them are not encoded yet',
- 'C06': 'RFC 1982 comparison kernel (seq_compare) for all 2^64 pairs: sign, antisymmetry, shift invariance; the DataTracker/Flow history part is not decided yet',
+ 'C06': 'RFC 1982 comparison kernel (seq_compare) for all 2^64 pairs: sign, antisymmetry, shift invariance; plus TCPIP::DataTracker on the real std::map/std::vector for k=2 segments of every shape inside a 3-byte window at initial sequence numbers bracketing the wrap point, stream bytes symbolic; the legacy TCPStream and Flow callbacks are outside',
  'C13': 'finite and complete: every concrete class x every class with a flag, symbolic flag value, against std::is_base_of',
  'C14': 'matches_response of every overriding class: memory safety on every reply length in the bound with a probe inner layer; mirror/perturbation relation for Ethernet, IPv4, TCP, UDP, ICMP, ICMPv6, DNS, ARP',
  'C15': 'every discovered (class, scalar/address field) pair: set arbitrary value on an arbitrary parsed header state, getter returns it (or value_too_large), every non-aliasing getter unchanged',
